@@ -13,7 +13,7 @@
  "includes": ["e2fsck"],
  "unwindset": {"do_one_pass.0": 2},
  "unwind_reason": "do_one_pass.0 is not a loop but the backward `goto ignore_crc_mismatch` (chksum_error -> earlier label, which leaves through `goto done`): it can be taken at most once, the unwinding assertion checks that; both real loops are cut by loop contracts",
- "cbmc_flags": ["--no-signed-overflow-check"],
+ "cbmc_flags": ["--no-signed-overflow-check", "--object-bits", "12"],
  "timeout": 900,
  "functions": ["e2fsck/recovery.c:do_one_pass"],
  "assumes": ["U/iter: the outer while(1) and the tag loop are cut by safety/typing invariants (in-place named anchors VERIF_INV_DO_ONE_PASS_OUTER / _TAGS); every statement of the monitor holds for an ARBITRARY iteration started in ANY state satisfying the invariants, nothing is claimed about the accumulated effect of all iterations (which transactions are reached)",
@@ -42,7 +42,7 @@
  "defines": ["DEBUGFS"],
  "unwindset": {"do_one_pass.0": 2},
  "unwind_reason": "as do_one_pass",
- "cbmc_flags": ["--no-signed-overflow-check"],
+ "cbmc_flags": ["--no-signed-overflow-check", "--object-bits", "12"],
  "timeout": 900,
  "functions": ["e2fsck/recovery.c:do_one_pass"],
  "assumes": ["same as do_one_pass, debugfs include environment (struct buffer_head / kdev_s carry an ext2_filsys instead of an e2fsck_t; J_ASSERT is assert)"],
@@ -76,6 +76,9 @@
  */
 #define JR_CUSTOM_IN
 #define VERIF_BH_SLACK 32
+#ifndef VERIF_MAX_BS_LOG
+#define VERIF_MAX_BS_LOG 0
+#endif
 #include "jr_spec.h"
 #include <errno.h>
 #include <limits.h>
@@ -273,6 +276,11 @@ void mark_buffer_uptodate(struct buffer_head *bh, int val)
 {
 	bh->b_uptodate = val;
 }
+/* printk == printf: messages only (CBMC's variadic printf model explodes under contract instrumentation) */
+int printf(const char *fmt, ...)
+{
+	return 0;
+}
 /* libc memcpy, over-approximated: bounds asserted; a 12-byte (tag) copy is exact; any other copy leaves arbitrary bytes in
  * the destination except at the ghost index verif_mc_k, where it is faithful (true of memcpy at every index) */
 struct verif_b12 { unsigned char b[12]; };
@@ -332,7 +340,7 @@ static int fc_cb(journal_t *journal, struct buffer_head *bh, enum passtype pass,
 void h_one_pass(void)
 {
 	LOAD_IN();
-	ASSUME(IN.bs_log <= 6);
+	ASSUME(IN.bs_log <= VERIF_MAX_BS_LOG);
 	ASSUME(IN.format_version == 1 || IN.format_version == 2);
 	ASSUME(IN.pass == PASS_SCAN || IN.pass == PASS_REVOKE || IN.pass == PASS_REPLAY);
 	J.j_superblock = &JSB;
